@@ -144,7 +144,7 @@ def process_chunk(args: Tuple[List[Dict[str, Any]], int, int]) -> Dict[str, Any]
     reqs, resps = codec.build(recs)
     fails: List[Tuple[str, str, Dict[str, Any]]] = []
     div: List[Tuple[str, Dict[str, Any]]] = []
-    st = {"second_requests": 0, "cases": 0, "encodes": 0, "decodes": 0, "real_ok": 0, "spec_ok": 0, "overlaps": 0, "prefix_decodes": 0,
+    st = {"second_requests": 0, "mux_by_key": 0, "cases": 0, "encodes": 0, "decodes": 0, "real_ok": 0, "spec_ok": 0, "overlaps": 0, "prefix_decodes": 0,
           "mutation_decodes": 0, "reencodes": 0, "truncated_flags": 0, "static_lengths": 0}
 
     def fail(prop: str, clause: str, rec: Dict[str, Any], entry: str, detail: Dict[str, Any]) -> None:
@@ -226,6 +226,24 @@ def process_chunk(args: Tuple[List[Dict[str, Any]], int, int]) -> Dict[str, Any]
                                 fail("C01", "round_trip", rec, entry, {**base, "decoded": repr(dec["vals"])[:300]})
                             if not dem and not explicit and dec["cursor"] != len(pdu):
                                 fail("C01", "whole_pdu_consumed", rec, entry, {**base, "cursor": dec["cursor"]})
+                    # ---- a multiplexer case may be named by a key value of its range instead of its short name: the lower limit
+                    # gives the same PDU, the upper limit one that decodes to the same case and content
+                    for p_ in ps:
+                        pv = vals.get(p_["n"])
+                        if p_["k"] != "VALUE" or p_["dop"].get("k") != "mux" or not isinstance(pv, tuple) or enc["overlap"]:
+                            continue
+                        for cs in [c_ for c_ in p_["dop"]["cases"] if c_["n"] == pv[0]]:
+                            st["mux_by_key"] += 1
+                            e_lo = codec.real_encode(obj, {**vals, p_["n"]: (cs["lo"], pv[1])}, rq)
+                            if e_lo["pdu"] != pdu:
+                                fail("C02", "mux_case_by_key", rec, entry, {**base, "key": cs["lo"], "by_key_exc": e_lo["exc"],
+                                                                            "by_key_pdu": e_lo["pdu"].hex() if e_lo["pdu"] is not None else None})
+                            if cs["hi"] != cs["lo"]:
+                                e_hi = codec.real_encode(obj, {**vals, p_["n"]: (cs["hi"], pv[1])}, rq)
+                                d_hi = codec.real_decode(obj, e_hi["pdu"]) if e_hi["pdu"] is not None else {"exc": e_hi["exc"], "vals": None}
+                                if d_hi["exc"] or not codec.agrees(completed(ps, vals), d_hi["vals"]):
+                                    fail("C01", "round_trip", rec, entry, {**base, "key": cs["hi"], "by_key_exc": d_hi["exc"],
+                                                                          "decoded": repr(d_hi["vals"])[:300]})
                     if spec_ok:
                         # ---- C02: bit-exact, overlap warning iff double claim
                         if pdu != bytes(c["pdu"]):
